@@ -343,7 +343,9 @@ func addNestedDefs(r *rand.Rand, p *Program) {
 	for d := 0; d < k; d++ {
 		val := pick(r, []string{"[a-z]+", "x{2,3}", "(?:a|b)", "\\s*", "y", "{3}", "a{{", "}}b",
 			// text that means something to a replacement template, a printf or a shell, and nothing to a definition
-			"[$_a-z]", "p$1q", "k${v1}z", "[$$]", "^end$", "\\$[a-z]+", "100%d", "%s", "a\\1b", "$0"})
+			"[$_a-z]", "p$1q", "k${v1}z", "[$$]", "^end$", "\\$[a-z]+", "100%d", "%s", "a\\1b", "$0",
+			// white space that is none for the definition pattern (`\S+` is ASCII): part of the value, at either end
+			"\u00a0", "\u3000|,", "x\u0085", "y\x0b", "\x0bz", "\u2003w\u2003"})
 		if d > 0 && chance(r, 0.6) {
 			val = pick(r, []string{"", "p", "(?:"}) + "{{" + names[r.Intn(d)] + "}}" + pick(r, []string{"", "q", ")?"})
 			if strings.HasPrefix(val, "(?:") && !strings.HasSuffix(val, ")?") {
@@ -506,6 +508,35 @@ func genParserCases(focus string) func(r *rand.Rand, tier string, env *Env) []Ca
 				}
 				args := append(append(append([][]byte{}, empty...), []byte(prog)), bf...)
 				cases = append(cases, Case{Kind: "big-include", Ops: []Op{{"parse.run", args[6:]}}, Oracles: []Op{{"parser.inline", args}}})
+			}
+			{
+				// a big include file (two or more buffer-fulls) that itself includes other files before its own end:
+				// the outer file is still being read while the inner files are opened, read and closed
+				var outer strings.Builder
+				nW := 700 + r.Intn(500)
+				for w := 0; w < nW; w++ {
+					fmt.Fprintf(&outer, "o%05dy%d\n", w*104729%100000, w%7)
+					if w == 3 || w == nW/2 {
+						outer.WriteString("##!> include innerlist\n")
+					}
+					if w == nW/3 {
+						outer.WriteString("##!> include innerbig\n")
+					}
+				}
+				var innerBig strings.Builder
+				for w := 0; w < 900; w++ {
+					fmt.Fprintf(&innerBig, "i%05dz\n", w*7919%100000)
+				}
+				nf := append(append([][]byte{}, files...), []byte("i"), []byte("outerbig.ra"), []byte(outer.String()), []byte("i"), []byte("innerlist.ra"), []byte("in1\nin2\n"),
+					[]byte("i"), []byte("innerbig.ra"), []byte(innerBig.String()))
+				progs := []string{"first\n##!> include outerbig\nlast\n", "##!> assemble\n##!> include outerbig\n##!<\n"}
+				if focus == "except" {
+					progs = []string{"first\n##!> include-except outerbig none\nlast\n"}
+				}
+				for _, prog := range progs {
+					args := append(append(append([][]byte{}, empty...), []byte(prog)), nf...)
+					cases = append(cases, Case{Kind: "big-nested-include", Ops: []Op{{"parse.run", args[6:]}}, Oracles: []Op{{"parser.inline", args}}})
+				}
 			}
 			for _, k := range names {
 				progs := []string{"a\n##!> include " + k + "\nb\n", "##!> include " + k + "\n", "##!> assemble\nx\n##!> include " + k + "\n##!=>\ny\n##!<\n"}
